@@ -334,6 +334,8 @@ fn c10_items() -> Vec<corpus::Item> {
     }
     let larks = vec![
         ("sl-lark-az", "start: \"<\" W \">\"\nW: /[a-z]{2,6}/", vec!["<abcdef>"]),
+        ("sl-lark-alnum", "start: \"<\" W \">\"\nW: /[a-z0-9]{1,6}/", vec!["<ab12c3>", "<1a>"]),
+        ("sl-lark-alnum-open", "start: W \";\" W\nW: /[a-z0-9 ]+/", vec!["ab 12;c3"]),
         ("sl-lark-num", "start: N \"x\" N\nN: /[0-9]{1,4}/", vec!["12x3456"]),
         ("sl-lark-andnot", "start: T \".\"\nT: /[a-z]+/ & ~/.*ab.*/", vec!["bacb."]),
         ("sl-lark-lazy", "start: h \"!\"\nh[lazy]: /[a-z]*x/", vec!["abx!"]),
